@@ -133,6 +133,9 @@ template<int > struct int_to_type {};
 
 //! A fast random number generator.
 /** Uses linear congruential method. */
+#if ONETBB_VERIF_SIM
+extern "C" unsigned sim_random_salt(void);
+#endif
 class FastRandom {
 private:
     unsigned x, c;
@@ -160,6 +163,10 @@ public:
         init(uint32_t((seed>>32)+seed), int_to_type<4>());
     }
     void init( uint32_t seed, int_to_type<4> ) {
+#if ONETBB_VERIF_SIM
+        // verification hook: victim / slot / lane choices vary with the simulation seed, not only with addresses
+        seed ^= sim_random_salt();
+#endif
         // threads use different seeds for unique sequences
         c = (seed|1)*0xba5703f5; // c must be odd, shuffle by a prime number
         x = c^(seed>>1); // also shuffle x for the first get() invocation
